@@ -391,6 +391,18 @@ def lemma_root_min(heap, n, k):
     props=['C03', 'C04'],
   ),
 
+  # the reply path: the member is released (the context is the release closure pushed at dispatch) BEFORE the reply
+  # travels on -- sinks further up may raise or re-enter, and the release must not depend on them
+  'HeapBalancerSink.AsyncProcessResponse': dict(
+    cls='HeapBalancerSink',
+    params={'sink_stack': 'ClientMessageSinkStack', 'context': 'Callable0', 'stream': 'any', 'msg': 'any'},
+    requires=[], ensures=['context.g_calls == old(context.g_calls) + 1'],
+    modifies=['*'], allocates='any',
+    ghost=[{'before': 'sink_stack.AsyncProcessResponse(stream, msg)', 'do': [
+      'prove(context.g_calls == old(context.g_calls) + 1, "member-released-before-the-reply-travels-on")']}],
+    props=['C04', 'C01'],
+  ),
+
   'HeapBalancerSink._FindNodeByEndpoint': dict(
     cls='HeapBalancerSink', params={'endpoint': 'any'}, returns='Node?',
     requires=['HI_shape(self)'],
